@@ -27,7 +27,7 @@ the closest point of the portal triangle itself, which lies in the portal plane)
 `segment_contact_asIs_counterexample` (the unchanged code violates the contact-position clause).
 Not proved (see PARTIAL in harness/props/c08.py): anything about the iteration-cap exit and about
 a degenerate final portal, that the barycentric weights are non-negative (the origin stays in
-the portal tetrahedron — false when `_expand_portal` decides on an exactly-zero dot product, e.g. exactly touching polytopes: finding F-mpr-expand-tie-contact),
+the portal tetrahedron — false when `_expand_portal` decides on an exactly-zero dot product, e.g. exactly touching polytopes: finding F-mpr-expand-tie),
 termination of the uncapped `_refine_portal`, floating-point effects.
 -/
 import D3.Proofs.MprPenTop
